@@ -246,6 +246,32 @@ def _embedded_case(vals, acc):
                  {'message': msg, 'mask': '***', 'expected': exp})
 
 
+QUOTED_NAME_RENDERINGS = [4, 5, 6, 11]     # the key is the tail of a quoted name
+QUOTED_NAME_PREFIXES = ['Admin ', 'my new ', 'the db ', 'X-Auth-', 'os.', 'a b c ', '\t', 'caf\u00e9 ',
+                        '(old) ', 'a/b:', '100% ']
+URLISH_SECRETS = ['Xy&z=1!', 'a?b=c&d=e', 'a&b=c', 'q?r=s', 'k=v', 'x;y=z', 'a,b=c', 'p&amp;q=r',
+                  'u://h/p?a=1&b=2']
+URLISH_CONTEXTS = [('GET /v3/users?limit=10 -> 401; retry with ', ' next'), ('', ' ?b=c'),
+                   ('http://h/p?a=1&b=2 ', ''), ('see /x?page=2&size=5 then ', ' and /y?z=1')]
+
+
+def _quoted_name_case(vals, acc):
+    """A key that is the tail of a longer quoted name whose first part contains blanks
+    or punctuation ('Admin Password', 'X-Auth-Token'): still a key."""
+    from oslo_utils import strutils
+    key, form, prefix, ri = vals
+    name, tmpl, family = RENDERINGS[ri]
+    k = prefix + key_form(key, form)
+    msg = 'body {' + tmpl % {'k': k, 'v': 'Zq9'} + '}'
+    exp = 'body {' + tmpl % {'k': k, 'v': '***'} + '}'
+    got = strutils.mask_password(msg)
+    acc.nontrivial('qn' + msg)
+    if got != exp:
+        acc.fail('quoted-name-prefix:%s' % ('leak' if 'Zq9' in got else 'damage'),
+                 {'message': msg, 'got': got, 'expected': exp},
+                 {'message': msg, 'mask': '***', 'expected': exp})
+
+
 def _long_case(vals, acc):
     """Long messages: the secret sits around a power-of-two offset."""
     from oslo_utils import strutils
@@ -403,6 +429,16 @@ def run(ctx):
     # product 3c: a key glued behind every proper prefix of every key
     prefixes = sorted({k[:i] for k in KEYS for i in range(1, len(k) + 1)})
     E.run(rep, 'embedded-keys', [KEYS, prefixes, EMBED_RENDERINGS], _embedded_case)
+    E.run(rep, 'quoted-name-prefixes', [KEYS, ['lower', 'Capitalised'], QUOTED_NAME_PREFIXES,
+                                        QUOTED_NAME_RENDERINGS], _quoted_name_case)
+    # product 3c': unquoted secrets that look like pieces of a URL / query string, in messages
+    # that also mention URLs: the value still runs to the next blank
+    E.run(rep, 'urlish-secrets', [KEYS if full else rep_keys + KEYS[::7], ['lower'], [0, 1, 12, 13],
+                                  URLISH_SECRETS, URLISH_CONTEXTS, ['***'], [None]], _case)
+    # ('--key value' cannot carry '=' in the value: sec. 8)
+    E.run(rep, 'urlish-secrets-dashdash', [KEYS if full else rep_keys + KEYS[::7], ['lower'], [9],
+                                           [x for x in URLISH_SECRETS if '=' not in x] + ['Xy&z', 'a?b', 'a&b'],
+                                           URLISH_CONTEXTS, ['***'], [None]], _case)
     # product 3d: long messages, the secret around 2^12, 2^13, 2^16 (and 2^20)
     deltas = list(range(-24, 25))
     E.run(rep, 'long-messages', [[0, 2, 3, 5, 9, 12], [4096, 8192, 65536], deltas,
